@@ -27,7 +27,7 @@ NAMES = {
     "spdx.xml": ["a.spdx.xml"], "spdx.yml": ["a.spdx.yml"], "spdx.yaml": ["a.spdx.yaml"], "REUSE.toml": ["REUSE.toml"],
     "LICENSEX": ["LICENSEX", "LICENSE_MIT", "LICENSEE.txt", "LICENSES.txt"], "XLICENSE": ["MYLICENSE", "UNLICENSE", "A-LICENSE.txt"],
     "COPYINGX": ["COPYINGS", "COPYING_LIB", "COPYINGv3"], "license-lower": ["license", "license.txt", "copying", "Licence.md"],
-    "spdxx": ["a.spdxx", "b.spdx2"], "x.spdx.txt": ["a.spdx.txt", "a.spdx.jsonx", "a.spdx.yl"],
+    "spdxx": ["a.spdxx", "b.spdx2"], "x.spdx.txt": ["a.spdx.txt", "a.spdx.jsonx", "a.spdx.yl", "a.spdx-json", "b.spdxXyml", "c.spdx_rdf"],
     "license-ext-other": ["x.licenses", "x.license.bak", "x.licence"], "toml-other": ["reuse.toml", "REUSE.toml.bak", "MYREUSE.toml"],
     "hidden": [".hidden", ".env"], "space": ["my file.py", " lead.txt"], "unicode": ["héllo.py", "文件.txt"],
     "git-file": [".git"], "hgtags": [".hgtags"],
@@ -153,6 +153,16 @@ def materialise_c03(p: dict, root: Path, outside: Path):
             continue
         if t == "empty":
             path.write_bytes(b"")
+        elif t == "special":           # a unix socket: neither regular file nor directory (opening it fails at once, no blocking)
+            import socket
+            sk = socket.socket(socket.AF_UNIX)
+            cwd0 = os.getcwd()
+            try:
+                os.chdir(path.parent)          # (socket paths are limited to ~100 bytes)
+                sk.bind(path.name)
+            finally:
+                os.chdir(cwd0)
+                sk.close()
         elif t == "symlink":
             tgt = outside / ("file-" + "-".join(f["path"]).replace("/", "_"))
             tgt.parent.mkdir(parents=True, exist_ok=True)
